@@ -275,6 +275,10 @@ class ValidateStream:
                 tag = rng.choice(["str", "bytes", "bytearray", "int", "float", "none", "other", "bytes", "str"])
                 if tag in ("str", "bytes", "bytearray"):
                     n = rng.choice([0, 1, 5, 100, 268435455, 268435456] if tag == "bytearray" else [0, 1, 5, 100])
+                    if tag == "bytearray" and rng.random() < 0.5:
+                        # whole-packet limit: topic length prefix + topic (+ packet id for QoS > 0, + property length for
+                        # MQTT 5) + payload must not exceed 268435455
+                        n = 268435455 - 2 - len(topic.encode("utf-8", "surrogatepass")) - rng.choice([0, 1, 2, 3, 4])
                 elif tag == "int":
                     n = rng.randint(1, 12)
                 elif tag == "float":
